@@ -29,8 +29,33 @@ def cfg(ctx, name, spec, maxlen, apids, seqs, invs, props=(), asis=False, init=N
     return path
 
 
-def run_history(d, hist, k):
+MODES = ("default", "skipbad", "unrec-skip", "unrec-yield")
+UNREC_APID = 200
+_DEFS = {}
+
+
+def definition_for(mode):
+    key = "unrec" if mode.startswith("unrec") else "plain"
+    if key not in _DEFS:
+        _DEFS[key] = defs.header_definition_not_recognising(UNREC_APID) if key == "unrec" else defs.header_only_definition()
+    return _DEFS[key]
+
+
+def expected_outs(model_outs, hist, mode):
+    """What the generator delivers of the reassembled outputs under the options of `mode` (every output is longer than the header-only
+    definitions, i.e. length-mismatched; outputs of UNREC_APID are unrecognized under the 'unrec' definition). The reassembly itself
+    (which groups close, which warnings are issued) does not depend on the options."""
+    if mode == "skipbad":
+        return []
+    if mode == "unrec-skip":
+        return [o for o in model_outs if hist[o[0] - 1][0] != UNREC_APID]
+    return model_outs
+
+
+def run_history(d, hist, k, mode="default"):
     """Feed the raw packet history to the real generator. Returns (outs as id lists, ngap, nnostart, problems)."""
+    from space_packet_parser.exceptions import UnrecognizedPacketTypeError
+    kw = {"skipbad": {"parse_bad_pkts": False}, "unrec-skip": {}, "unrec-yield": {"yield_unrecognized_packet_errors": True}}.get(mode, {})
     stream = b""
     pk = []
     for i, (apid, flag, seq) in enumerate(hist, 1):
@@ -45,7 +70,7 @@ def run_history(d, hist, k):
         warnings.simplefilter("always")
         try:
             items = []
-            gen = d.packet_generator(stream, combine_segmented_packets=True, secondary_header_bytes=k)
+            gen = d.packet_generator(stream, combine_segmented_packets=True, secondary_header_bytes=k, **kw)
             for it in gen:
                 items.append(it)
                 if len(items) > len(hist) + 2:
@@ -54,6 +79,15 @@ def run_history(d, hist, k):
         except Exception as e:  # noqa: BLE001
             problems.append(f"exception {type(e).__name__}: {e}")
     for it in items:
+        if isinstance(it, UnrecognizedPacketTypeError):
+            if mode != "unrec-yield" or it.partial_data is None:
+                problems.append("unexpected error object")
+                continue
+            it = it.partial_data
+            if ((bytes(it.raw_data)[0] & 7) << 8 | bytes(it.raw_data)[1]) != UNREC_APID:
+                problems.append("a recognizable output was reported as unrecognized")
+        elif mode.startswith("unrec") and ((bytes(it.raw_data)[0] & 7) << 8 | bytes(it.raw_data)[1]) == UNREC_APID:
+            problems.append("an output of the unrecognized APID was delivered as parsed")
         raw = bytes(it.raw_data)
         # identify contributors: the whole first packet, then for each later one its data minus k bytes
         ids = []
@@ -98,7 +132,8 @@ def run(ctx):
                 "(real 14-bit values around the wrap), invariants OpenUnused/OpenShape/LastWellFormed and action properties "
                 "NoReuseStep/PerApidIndependent/OnlyWhenComplete. A: every history of length 3 (BFS export) and simulated "
                 "histories of depth 12 replayed through packet_generator(combine_segmented_packets=True, secondary_header_bytes=k), "
-                "outputs identified by payload bytes. B: random long histories run on the real generator and validated by "
+                "outputs identified by payload bytes; half of the histories run under other options (parse_bad_pkts=False; a definition "
+                "that does not recognise one APID, with and without error reporting), which change what is delivered but not the reassembly. B: random long histories run on the real generator and validated by "
                 "Trace_Segments. distinct = distinct (history, k).")
     ctx.assumptions = ["raw packets are identified in outputs by unique payload bytes placed by the harness",
                        "warnings are counted per history (gap / no-start), not attributed to individual packets"]
@@ -113,6 +148,11 @@ def run(ctx):
         raise core.MachineryError("as-is Segments model no longer violates OpenUnused")
     ctx.extra["asis_model_violates"] = ra.violated
     ctx.exhaustive = True
+    if not q:
+        # histories of ANY length: the invariants (strengthened by OpenDisjoint / Fresh / OpenAscending) are inductive (Apalache)
+        ctx.tlc_expect_ok("Refine_Segments", "Refine_Segments.cfg", tag="Ind_Segments refines Segments", count=False)
+        ctx.apalache_expect_ok("Ind_Segments.tla", "Init", "IndInv", 0, tag="base case")
+        ctx.apalache_expect_ok("Ind_Segments.tla", "IndInit", "IndInvAndStep", 1, tag="inductive step from an arbitrary state")
 
     d = defs.header_only_definition()
     # ---- A: spec -> code
@@ -133,8 +173,12 @@ def run(ctx):
     for ci, c in enumerate(cases):
         hist = [(h[0], FLAG[h[1]], h[2]) for h in c["h"]]
         k = (0, 2, 5)[ci % 3]
-        outs, ngap, nno, problems = run_history(d, hist, k)
-        ctx.count(("A", k, tuple(hist)))
+        # the options decide what is delivered, never how groups are collected and closed
+        mode = MODES[(ci // 3) % 4] if ci % 2 else "default"
+        outs, ngap, nno, problems = run_history(definition_for(mode), hist, k, mode)
+        ctx.count(("A", k, tuple(hist), mode))
+        ctx.tally("A_mode_" + mode)
+        c = dict(c, o=expected_outs(c["o"], hist, mode))
         ctx.traces += 1
         if any(len(o) > 1 for o in c["o"]):
             multi += 1
@@ -148,7 +192,8 @@ def run(ctx):
             prob = f"warnings gap/nostart {(ngap, nno)} != model {(c['g'], c['s'])}"
         if prob:
             kind = "reuse" if any(len(set(x)) != len(x) for x in outs) or len({i for o in outs for i in o}) != sum(len(o) for o in outs) else "mismatch"
-            ctx.violation(f"C12/replay/{kind}", prob, {"history": hist, "k": k, "model": c})
+            ctx.violation(f"C12/replay/{kind}" + ("" if mode == "default" else "/" + mode), prob + ("" if mode == "default" else f" [options: {mode}]"),
+                          {"history": hist, "k": k, "model": c, "mode": mode})
     ctx.extra["A_histories_with_multi_segment_output"] = multi
     if multi == 0:
         ctx.vacuity("no replayed history produced a combined output")
@@ -171,10 +216,11 @@ def run(ctx):
             hist.append((a, fl, seqc[a]))
             seqc[a] = (seqc[a] + 1) % 16384
         k = rng.choice([0, 0, 1, 4])
-        outs, ngap, nno, problems = run_history(d, hist, k)
+        mode = "unrec-yield" if t % 3 == 2 else "default"       # both deliver every output, in order
+        outs, ngap, nno, problems = run_history(definition_for(mode), hist, k, mode)
         if problems:
-            ctx.violation("C12/trace/decode", "; ".join(problems), {"history": hist, "k": k})
-        recs.append({"tid": t + 1, "pk": [list(h) for h in hist], "outs": outs, "gaps": ngap, "nostarts": nno, "k": k})
+            ctx.violation("C12/trace/decode", "; ".join(problems), {"history": hist, "k": k, "mode": mode})
+        recs.append({"tid": t + 1, "pk": [list(h) for h in hist], "outs": outs, "gaps": ngap, "nostarts": nno, "k": k, "mode": mode})
     path = os.path.join(ctx.work, "seg-trace.ndjson")
     core.write_ndjson(path, recs)
     tcfg = cfg(ctx, "trace.cfg", None, 100000, allap, [0], ["TraceInv"], init=("TraceInit", "TraceNext"))
@@ -191,15 +237,21 @@ def run(ctx):
         ctx.count(("B", rec["k"], tuple(map(tuple, rec["pk"]))))
         if v[0] != "ACCEPT":
             ctx.violation(f"C12/trace/{v[2]}", f"trace rejected ({v[2]}): real outs {rec['outs'][:6]}.. gaps {rec['gaps']} "
-                          f"nostarts {rec['nostarts']}; model {v[3][:300]}", {"history": rec["pk"], "k": rec["k"]})
+                          f"nostarts {rec['nostarts']}; model {v[3][:300]}", {"history": rec["pk"], "k": rec["k"], "mode": rec["mode"]})
     ctx.sample({"direction": "code->spec", "packets": len(recs[0]["pk"]), "first_packets": recs[0]["pk"][:8],
                 "outs": recs[0]["outs"][:5]}, limit=5)
 
 
 def replay(ctx, obj):
-    d = defs.header_only_definition()
+    mode = obj.get("mode", "default")
+    d = definition_for(mode)
     hist = [tuple(h) for h in obj["history"]]
-    outs, ngap, nno, problems = run_history(d, hist, obj.get("k", 0))
+    outs, ngap, nno, problems = run_history(d, hist, obj.get("k", 0), mode)
+    if "model" in obj and (problems or outs != obj["model"]["o"] or (ngap, nno) != (obj["model"]["g"], obj["model"]["s"])):
+        ctx.violation("C12/replay/mismatch", f"outputs {outs} warnings {(ngap, nno)} problems {problems}; expected {obj['model']}", obj)
+    if mode in ("skipbad", "unrec-skip"):
+        print("outputs:", outs, "gaps:", ngap, "nostarts:", nno, "problems:", problems)
+        return
     print("outputs:", outs, "gaps:", ngap, "nostarts:", nno, "problems:", problems)
     path = os.path.join(ctx.work, "seg-replay.ndjson")
     core.write_ndjson(path, [{"tid": 1, "pk": [list(h) for h in hist], "outs": outs, "gaps": ngap, "nostarts": nno, "k": 0}])
